@@ -34,8 +34,10 @@ ROW_PARAM = re.compile(r'^(y|ys|y\d|y_[a-z0-9_]+|[a-z0-9_]+_ys?|height|ymin|ymax
                        r'num_rows)$')
 COL_PARAM = re.compile(r'^(x|xs|x\d|x_[a-z0-9_]+|[a-z0-9_]+_xs?|width|xmin|xmax|cols?|columns?|'
                        r'num_cols|num_columns)$')
-SCALAR_PASS = {'int', 'float', 'abs', 'round', 'math.floor', 'math.ceil', 'np.floor', 'np.ceil',
-               'np.round', 'np.abs', 'np.asarray', 'np.array', 'bool'}
+SCALAR_PASS = {'int', 'float', 'round', 'math.floor', 'math.ceil', 'np.floor', 'np.ceil',
+               'np.round', 'np.asarray', 'np.array', 'bool'}
+# a magnitude is a length, commensurable across axes (Chebyshev / Manhattan distances)
+MAGNITUDES = {'abs', 'np.abs', 'numpy.abs', 'math.fabs', 'np.absolute'}
 ITER_PASS = {'list', 'tuple', 'sorted', 'reversed', 'set', 'frozenset', 'iter', 'np.sort',
              'np.unique', 'np.asarray', 'np.array'}
 EXEMPT_FILES_FUNCS = {
@@ -319,6 +321,8 @@ class _Walker:
         last = f.split('.')[-1]
         if f in SCALAR_PASS and args:
             return args[0]
+        if f in MAGNITUDES and args:
+            return N
         if f in ITER_PASS and args:
             a = args[0]
             return a if isinstance(a, tuple) and a[0] == 'I' else (('I', self.elem(a))
